@@ -268,6 +268,58 @@ func runC13(c *Ctx) {
 			}
 		}
 		c.Floor("R2.passthrough", nArgs, 5, "arguments of agent calls in the request loop")
+		// ... and what an arm replies is built in this iteration: a reply struct that lives outside the request loop
+		// must have every field written on every path from the read to its encoding, or a field set while serving an
+		// earlier request (an error text, a certificate) is sent again
+		if readCall != nil {
+			head := readCall.Block()
+			nRep := 0
+			for _, call := range w.callsInDeep(serve) {
+				cv, ok := call.(*ssa.Call)
+				if !ok || calleeName(cv) != tbXSSHPath+".Marshal" || len(cv.Call.Args) != 1 {
+					continue
+				}
+				nRep++
+				al, isAl := throughCell(strip(cv.Call.Args[0])).(*ssa.Alloc)
+				if !isAl {
+					if mi, isMI := cv.Call.Args[0].(*ssa.MakeInterface); isMI {
+						al, isAl = mi.X.(*ssa.Alloc)
+					}
+				}
+				key := "server reply " + shortName(strip(cv.Call.Args[0]).Type().String()) + "|built while serving this request"
+				if !isAl || al.Parent() != serve || al.Block() == head || !al.Block().Dominates(head) {
+					c.Ok("R2.passthrough", key, w.Pos(cv.Pos()), "the encoded value is made in this iteration (or in a helper's activation)")
+					continue
+				}
+				st, _ := al.Type().(*types.Pointer).Elem().Underlying().(*types.Struct)
+				stale := ""
+				for fi := 0; st != nil && fi < st.NumFields(); fi++ {
+					barrier := map[ssa.Instruction]bool{}
+					for _, r := range *al.Referrers() {
+						switch u := r.(type) {
+						case *ssa.Store:
+							if u.Addr == ssa.Value(al) {
+								barrier[u] = true
+							}
+						case *ssa.FieldAddr:
+							if u.Field != fi {
+								continue
+							}
+							for _, rr := range *u.Referrers() {
+								if sv, isSt := rr.(*ssa.Store); isSt && sv.Addr == ssa.Value(u) {
+									barrier[sv] = true
+								}
+							}
+						}
+					}
+					if ReachableAvoiding(readCall, barrier)(cv) {
+						stale = st.Field(fi).Name()
+					}
+				}
+				c.Check(stale == "" && st != nil, "R2.passthrough", key, w.Pos(cv.Pos()), "every field written on every path of this iteration", "the reply variable "+al.Comment+" is declared outside the request loop and its field "+stale+" can still hold what an earlier request put there: the answer to one request leaks into the next")
+			}
+			c.Floor("R2.passthrough", nRep, 2, "structured replies encoded in the request loop")
+		}
 	}
 	// the add-hardware-certificate arm gives up (ends the connection) only after BOTH encodings failed to parse
 	{
@@ -408,9 +460,37 @@ func runC13(c *Ctx) {
 		}
 		c.Saw(fn)
 		f := w.Facts(fn)
-		for _, call := range callsTo(fn, "os/exec.Command", "os/exec.CommandContext") {
+		for _, call := range w.callsInDeep(fn) {
+			if n := calleeName(call); n != "os/exec.Command" && n != "os/exec.CommandContext" {
+				continue
+			}
 			nExec++
-			ok := f.Any(call.Block(), func(l Lit) bool { return !l.Pol && w.Expr(l.V) == "p0."+remoteField })
+			// the points of the operation itself from which the tool is run (the call, or the call of the helper that runs it)
+			at := []ssa.Instruction{call.(ssa.Instruction)}
+			for hop := 0; hop < 4; hop++ {
+				var next []ssa.Instruction
+				moved := false
+				for _, x := range at {
+					if x.Parent() == fn {
+						next = append(next, x)
+						continue
+					}
+					moved = true
+					for _, site := range w.sitesIn(fn, x.Parent()) {
+						next = append(next, site.(ssa.Instruction))
+					}
+				}
+				at = next
+				if !moved {
+					break
+				}
+			}
+			ok := len(at) > 0
+			for _, x := range at {
+				if x.Parent() != fn || !f.Any(x.Block(), func(l Lit) bool { return !l.Pol && w.Expr(l.V) == "p0."+remoteField }) {
+					ok = false
+				}
+			}
 			c.Check(ok, "R3.remote", "server."+name+"|tool run only when not remote", w.Pos(call.Pos()), "must-fact remote == false", "the PIV tool can be run on a remote-mode server")
 		}
 		// a failure of the tool fails the operation: wherever the error of running it is non-nil, control reaches only
@@ -429,7 +509,64 @@ func runC13(c *Ctx) {
 				ev = extractOf(cv, 1)
 			}
 			g := cv.Parent()
-			ends := ev != nil && w.ErrEdgeEnds(g, ev) && (g == fn || w.failurePropagates(fn, g))
+			// a runner that hands the tool's results back as they are (return cmd.Output()): the error is judged where a
+			// caller on the operation's tree first looks at it
+			type frame struct {
+				g  *ssa.Function
+				ev ssa.Value
+			}
+			frames := []frame{{g, ev}}
+			for hop := 0; hop < 4 && ev != nil; hop++ {
+				var next []frame
+				moved := false
+				for _, fr := range frames {
+					idx := errorResultIndex(fr.g)
+					asIs := fr.g != fn && idx >= 0
+					for _, u := range valueUsers(fr.ev) {
+						if _, isDbg := u.(*ssa.DebugRef); isDbg {
+							continue
+						}
+						if r, isRet := u.(*ssa.Return); !isRet || idx >= len(r.Results) || r.Results[idx] != fr.ev {
+							asIs = false
+						}
+					}
+					if asIs {
+						for _, r := range liveReturns(fr.g) {
+							if r.Results[idx] != fr.ev {
+								asIs = false
+							}
+						}
+					}
+					sites := w.sitesIn(fn, fr.g)
+					if !asIs || len(sites) == 0 {
+						next = append(next, fr)
+						continue
+					}
+					moved = true
+					for _, site := range sites {
+						sc, isCall := site.(*ssa.Call)
+						if !isCall {
+							next = append(next, fr)
+							continue
+						}
+						var up ssa.Value = sc
+						if sc.Call.Signature().Results().Len() > 1 {
+							up = extractOf(sc, idx)
+						}
+						next = append(next, frame{sc.Parent(), up})
+					}
+				}
+				frames = next
+				if !moved {
+					break
+				}
+			}
+			ends := ev != nil
+			for _, fr := range frames {
+				if fr.ev == nil || !w.ErrEdgeEnds(fr.g, fr.ev) || !(fr.g == fn || w.failurePropagates(fn, fr.g)) {
+					ends = false
+				}
+			}
 			c.Check(ends, "R4.slots", "server."+name+"|a failed tool run fails the operation", w.Pos(cv.Pos()), "the error edge of the tool's run reaches only returns of a non-nil error",
 				"the slot operation can go on (and report success) although running the PIV tool failed: a truncated or partial output is taken for the answer")
 		}
